@@ -118,12 +118,52 @@ class Mod:
             self.tree = ast.parse(self.source, filename=str(path))
         except SyntaxError as e:
             raise AnalysisError(f"{rel}: does not parse: {e}")
+        self.inlined_sites = 0
+        self.inlined_helpers = set()
+        if os.environ.get("VERIF_NO_NORMALIZE") != "1":
+            from .normalize import normalize_module
+
+            self.inlined_sites, self.inlined_helpers = normalize_module(self.tree)
+            if self.inlined_helpers:
+                self._drop_dead_helpers()
         self.classes = {}
         self.functions = {}
         self.consts = {}
         self.imports = {}  # local name -> (module rel-ish, original name)
         for st in self.tree.body:
             self._top(st)
+
+    def _drop_dead_helpers(self):
+        """Remove helper definitions whose every call site was inlined (they are dead
+        code for the analysis; keeping them would double-count their statements)."""
+        names = {h.split(".")[-1] for h in self.inlined_helpers}
+
+        def refs(tree, skip):
+            out = set()
+            for n in ast.walk(tree):
+                if n in skip:
+                    continue
+                if isinstance(n, ast.Attribute) and n.attr in names:
+                    out.add(n.attr)
+                elif isinstance(n, ast.Name) and n.id in names and isinstance(n.ctx, ast.Load):
+                    out.add(n.id)
+            return out
+
+        defs = [n for n in ast.walk(self.tree) if isinstance(n, (ast.FunctionDef, ast.AsyncFunctionDef)) and n.name in names]
+        inside = set()
+        for d in defs:
+            for n in ast.walk(d):
+                inside.add(n)
+        live = refs(self.tree, inside)
+        dead = names - live
+
+        def prune(body):
+            return [st for st in body if not (isinstance(st, (ast.FunctionDef, ast.AsyncFunctionDef)) and st.name in dead)]
+
+        self.tree.body = prune(self.tree.body)
+        for n in ast.walk(self.tree):
+            if isinstance(n, ast.ClassDef):
+                n.body = prune(n.body) or [ast.Pass()]
 
     def _top(self, st):
         if isinstance(st, ast.ClassDef):
@@ -327,6 +367,11 @@ class Repo:
                     m2, nm = tm
                     if nm in m2.consts:
                         return self.fold(m2.consts[nm], m2, None, env, depth + 1)
+            if mod is None and cls is None:
+                # no context given: a module-level constant that is defined in exactly one module
+                hits = self._const_index().get(expr.id, [])
+                if len(hits) == 1:
+                    return self.fold(hits[0].consts[expr.id], hits[0], None, env, depth + 1)
             raise Unfoldable(f"name {expr.id}")
         if isinstance(expr, ast.Attribute):
             base = expr.value
@@ -413,6 +458,15 @@ class Repo:
                     raise Unfoldable("fstring hole")
             return out
         raise Unfoldable(type(expr).__name__)
+
+    def _const_index(self):
+        if getattr(self, "_cidx", None) is None:
+            idx = {}
+            for m in self.all_mods():
+                for k in m.consts:
+                    idx.setdefault(k, []).append(m)
+            self._cidx = idx
+        return self._cidx
 
     def try_fold(self, expr, mod=None, cls=None, env=None, default=None):
         try:
@@ -557,6 +611,72 @@ class _DeepStrip(ast.NodeTransformer):
         for h in getattr(node, "handlers", []) or []:
             h.body = self._clean(h.body) or [ast.Pass()]
         return node
+
+
+class _ConstSubst(ast.NodeTransformer):
+    def __init__(self, consts):
+        self.consts = consts
+
+    def visit_Name(self, node):
+        v = self.consts.get(node.id)
+        if isinstance(node.ctx, ast.Load) and isinstance(v, (ast.Constant, ast.Tuple)) and node.id.startswith("_"):
+            import copy
+
+            return copy.deepcopy(v)
+        return node
+
+
+def const_text(fi):
+    """Source text of a function with private module-level literal constants substituted
+    (so that `_MARKER in line` reads `'Snapshot' in line`)."""
+    import copy
+
+    return ast.unparse(_ConstSubst(fi.mod.consts).visit(copy.deepcopy(fi.node)))
+
+
+class _Alpha(ast.NodeTransformer):
+    """Rename locally bound names (assignment/for/comprehension targets) to v0, v1, ...
+    in order of first binding, so that two functions that differ only in the names of
+    their locals compare equal."""
+
+    def __init__(self, keep):
+        self.map = {}
+        self.keep = keep
+
+    def _name(self, n):
+        if n in self.keep:
+            return n
+        if n not in self.map:
+            self.map[n] = f"v{len(self.map)}"
+        return self.map[n]
+
+    def visit_Name(self, node):
+        if isinstance(node.ctx, (ast.Store, ast.Del)):
+            return ast.copy_location(ast.Name(id=self._name(node.id), ctx=node.ctx), node)
+        if node.id in self.map:
+            return ast.copy_location(ast.Name(id=self.map[node.id], ctx=node.ctx), node)
+        return node
+
+    def _comp(self, node):
+        for g in node.generators:
+            g.target = self.visit(g.target)
+            g.iter = self.visit(g.iter)
+            g.ifs = [self.visit(i) for i in g.ifs]
+        for f in ("elt", "key", "value"):
+            if hasattr(node, f):
+                setattr(node, f, self.visit(getattr(node, f)))
+        return node
+
+    visit_ListComp = visit_SetComp = visit_DictComp = visit_GeneratorExp = _comp
+
+
+def alpha_text(fi):
+    body = deep_strip(fi.node.body)
+    a = fi.node.args
+    keep = {p.arg for p in a.posonlyargs + a.args + a.kwonlyargs}
+    tr = _Alpha(keep)
+    cs = _ConstSubst(fi.mod.consts)
+    return "\n".join(ast.unparse(tr.visit(cs.visit(s))) for s in body)
 
 
 def deep_strip(body):
